@@ -279,7 +279,7 @@ func fieldName(t types.Type, i int) string {
 		t = p.Elem()
 	}
 	if s, ok := t.Underlying().(*types.Struct); ok && i < s.NumFields() {
-		return s.Field(i).Name()
+		return fieldRole(t, i, s.Field(i).Name())
 	}
 	return fmt.Sprintf("#%d", i)
 }
